@@ -1,11 +1,16 @@
-// stats: development helper — runs only the reference over every case of the
-// families of a tier and prints why cases are skipped.  Not used by the check.
+// stats: development helper, not used by the check.
+//
+//	stats <tier> [family] [maxcases]        reference only: why cases are skipped
+//	RUN=1 stats <tier> [family] [maxcases]  evenly spread cases run on golua too,
+//	                                        violations grouped by family and clause
 package main
 
 import (
 	"fmt"
 	"os"
 	"sort"
+	"strconv"
+	"strings"
 
 	"verif/engine/cmd/c10/fam"
 )
@@ -15,32 +20,41 @@ func main() {
 	if len(os.Args) > 1 {
 		tier = os.Args[1]
 	}
-	fam.DryRun = true
+	max := uint64(300000)
+	if len(os.Args) > 3 {
+		n, _ := strconv.Atoi(os.Args[3])
+		max = uint64(n)
+	}
+	run := os.Getenv("RUN") != ""
+	fam.DryRun = !run
 	for _, f := range fam.Families(tier) {
-		if len(os.Args) > 2 && os.Args[2] != f.Name {
+		if len(os.Args) > 2 && os.Args[2] != "" && os.Args[2] != f.Name {
 			continue
 		}
 		fam.Why = map[string]int{}
-		notCanon := 0
 		step := uint64(1)
-		if f.Size > 300000 {
-			step = f.Size / 300000
+		if f.Size > max {
+			step = f.Size / max
+			if step%2 == 0 {
+				step++ // odd stride: does not lock onto an even digit period
+			}
 		}
+		evals, skipped := 0, 0
+		classes := map[string][]string{}
 		for i := uint64(0); i < f.Size; i += step {
-			before := 0
-			for _, v := range fam.Why {
-				before += v
+			o := f.Run(i)
+			if o.Skipped {
+				skipped++
+				continue
 			}
-			f.Run(i)
-			after := 0
-			for _, v := range fam.Why {
-				after += v
-			}
-			if after == before {
-				notCanon++
+			evals++
+			if o.Viol != nil {
+				k := o.Viol.Key
+				c := k[strings.LastIndex(k, "clause="):]
+				classes[c] = append(classes[c], fmt.Sprintf("%s   [%s:%d]", k, f.Name, i))
 			}
 		}
-		fmt.Printf("%s size=%d step=%d not-canonical=%d\n", f.Name, f.Size, step, notCanon)
+		fmt.Printf("%s size=%d step=%d evaluated=%d skipped=%d\n", f.Name, f.Size, step, evals, skipped)
 		var ks []string
 		for k := range fam.Why {
 			ks = append(ks, k)
@@ -48,6 +62,22 @@ func main() {
 		sort.Strings(ks)
 		for _, k := range ks {
 			fmt.Printf("   %8d  %s\n", fam.Why[k], k)
+		}
+		ks = ks[:0]
+		for k := range classes {
+			ks = append(ks, k)
+		}
+		sort.Strings(ks)
+		for _, k := range ks {
+			fmt.Printf("   %8d  %s\n", len(classes[k]), k)
+			if k != "clause=co-error-eager-close" {
+				for j, e := range classes[k] {
+					if j >= 12 {
+						break
+					}
+					fmt.Printf("               %s\n", e)
+				}
+			}
 		}
 	}
 }
